@@ -5,7 +5,7 @@
   the invariant C01 proves for every constructible network) whose attribute dicts have distinct
   keys (`AttrWF`, true of every Python dict).
 -/
-import XgiModel.C19.Lemmas
+import XgiModel.C19.Lemmas4
 
 namespace Xgi.C19
 open Xgi Xgi.HG
@@ -425,4 +425,461 @@ theorem lshift_spec {s t : HG} (hs : WF s) (ht : WF t) (has : AttrWF s) (hat : A
       simp only [hns, hnt, if_true, if_false]; rfl
   · show r4.1.frozen = false
     rw [d2.frozen, c2.frozen, b2.frozen, a2.frozen]; rfl
+
+/-! ### cut_to_order, k_skeleton -/
+
+/-- `cut_to_order(H, order)` for an admissible order (at most `max_edge_order(H)`), for hypergraphs and for
+    simplicial complexes: exactly the edges of order ≤ `order` are kept, in order, with members and attributes;
+    nodes, their attributes and the network attributes are untouched; the result is not frozen. -/
+theorem cut_to_order_spec (cls : Cls) {s : HG} (h : WF s) (ha : AttrWF s) (order mo : Int)
+    (hmo : maxEdgeOrder s = some mo) (hle : order ≤ mo) :
+    (cutToOrder cls s order).2 = .ok ∧
+    (cutToOrder cls s order).1.nodes = s.nodes ∧
+    (cutToOrder cls s order).1.edges = s.edges.filter (fun e => decide (((s.mem e).length : Int) - 1 ≤ order)) ∧
+    (∀ e ∈ (cutToOrder cls s order).1.edges, (cutToOrder cls s order).1.mem e = s.mem e) ∧
+    (∀ n ∈ s.nodes, (cutToOrder cls s order).1.nattr n = s.nattr n) ∧
+    (∀ e ∈ (cutToOrder cls s order).1.edges, (cutToOrder cls s order).1.eattr e = s.eattr e) ∧
+    (cutToOrder cls s order).1.net = s.net ∧ (cutToOrder cls s order).1.frozen = false ∧
+    WF (cutToOrder cls s order).1 := by
+  obtain ⟨c1, c2, c3, c4⟩ := copyOf_fields cls h ha
+  unfold cutToOrder
+  rw [andThen_of_ok _ _ c1]
+  generalize (copyOf cls s).1 = c at *
+  simp only [hmo]
+  have hgt : ¬ order > mo := by omega
+  simp only [hgt, if_false]
+  -- in every branch: same tables as the copy, and the edges not above the order
+  have key : ∀ r : HG × Outcome, r.2 = .ok → SameTables r.1 c → r.1.edges = c.edges.filter (· ∉ aboveOrder c order) →
+      WF r.1 →
+      r.2 = .ok ∧ r.1.nodes = s.nodes ∧
+      r.1.edges = s.edges.filter (fun e => decide (((s.mem e).length : Int) - 1 ≤ order)) ∧
+      (∀ e ∈ r.1.edges, r.1.mem e = s.mem e) ∧ (∀ n ∈ s.nodes, r.1.nattr n = s.nattr n) ∧
+      (∀ e ∈ r.1.edges, r.1.eattr e = s.eattr e) ∧ r.1.net = s.net ∧ r.1.frozen = false ∧ WF r.1 := by
+    intro r h1 h2 h3 h4
+    have hed : r.1.edges = s.edges.filter (fun e => decide (((s.mem e).length : Int) - 1 ≤ order)) := by
+      rw [h3, c2.edges]; apply List.filter_congr; intro x hx
+      unfold aboveOrder
+      rw [Bool.eq_iff_iff]
+      simp only [List.mem_filter, c2.edges, hx, true_and, gt_iff_lt, decide_eq_true_eq, c2.mem x hx]
+      omega
+    have hsub : ∀ e ∈ r.1.edges, e ∈ s.edges := fun e he => by rw [hed] at he; exact (List.mem_filter.1 he).1
+    refine ⟨h1, by rw [h2.nodes, c2.nodes], hed, ?_, ?_, ?_, by rw [h2.net, c2.net], by rw [h2.frozen, c3], h4⟩
+    · intro e he; rw [h2.mem]; exact c2.mem e (hsub e he)
+    · intro n hn; rw [h2.nattr]; exact c2.nattr n hn
+    · intro e he; rw [h2.eattr]; exact c2.eattr e (hsub e he)
+  by_cases heq : order = mo
+  · subst heq
+    simp only [ne_eq, not_true_eq_false, if_false]
+    have hfil : c.edges = c.edges.filter (· ∉ aboveOrder c order) := by
+      apply (List.filter_eq_self.2 _).symm
+      intro e he
+      have := maxEdgeOrder_ge hmo e (by rw [← c2.edges]; exact he)
+      simp only [aboveOrder, List.mem_filter, he, true_and, gt_iff_lt, decide_eq_true_eq,
+        c2.mem e (by rw [← c2.edges]; exact he)]
+      omega
+    have := key (c, .ok) rfl (SameTables.refl c) hfil c4
+    exact ⟨trivial, this.2⟩
+  · simp only [ne_eq, heq, not_false_eq_true, if_true]
+    cases cls with
+    | sc =>
+      obtain ⟨g1, g2, g3⟩ := removeSimplexIdsFrom_spec c4 order
+      exact key _ g1 g2 g3 (removeSimplexIdsFrom_wf c4 _)
+    | hg =>
+      obtain ⟨g1, g2, g3⟩ := removeEdges_spec (aboveOrder c order) c (nodup_filter _ c4.nodupE)
+        (fun e he => (List.mem_filter.1 he).1)
+      exact key _ g1 g2 g3 (removeEdgesFrom_wf c4 _)
+
+/-- an order above the maximum is rejected with the library's own error -/
+theorem cut_to_order_above_max (cls : Cls) {s : HG} (h : WF s) (ha : AttrWF s) (order mo : Int)
+    (hmo : maxEdgeOrder s = some mo) (hgt : order > mo) : (cutToOrder cls s order).2 = .err .lib := by
+  obtain ⟨c1, _⟩ := copyOf_fields cls h ha
+  unfold cutToOrder
+  rw [andThen_of_ok _ _ c1]
+  simp only [hmo, hgt, if_true]
+
+/-- `k_skeleton(SC, order)` is `cut_to_order` on a simplicial complex: exactly the simplices of order ≤ `order` -/
+theorem k_skeleton_spec {s : HG} (h : WF s) (ha : AttrWF s) (order mo : Int)
+    (hmo : maxEdgeOrder s = some mo) (hle : order ≤ mo) :
+    (kSkeleton .sc s order).2 = .ok ∧
+    (kSkeleton .sc s order).1.nodes = s.nodes ∧
+    (kSkeleton .sc s order).1.edges = s.edges.filter (fun e => decide (((s.mem e).length : Int) - 1 ≤ order)) ∧
+    (∀ e ∈ (kSkeleton .sc s order).1.edges, (kSkeleton .sc s order).1.mem e = s.mem e) ∧
+    (∀ n ∈ s.nodes, (kSkeleton .sc s order).1.nattr n = s.nattr n) ∧
+    (∀ e ∈ (kSkeleton .sc s order).1.edges, (kSkeleton .sc s order).1.eattr e = s.eattr e) ∧
+    (kSkeleton .sc s order).1.net = s.net ∧ (kSkeleton .sc s order).1.frozen = false ∧
+    WF (kSkeleton .sc s order).1 := by
+  have : kSkeleton .sc s order = cutToOrder .sc s order := by unfold kSkeleton; simp
+  rw [this]; exact cut_to_order_spec .sc h ha order mo hmo hle
+
+/-- a subcomplex: the k-skeleton of a downward closed family is downward closed -/
+theorem k_skeleton_closed {s : HG} (h : WF s) (ha : AttrWF s) (order mo : Int)
+    (hmo : maxEdgeOrder s = some mo) (hle : order ≤ mo)
+    (hclosed : ∀ e ∈ s.edges, ∀ f : List PyId, f ≠ [] → f.Nodup → (∀ x ∈ f, x ∈ s.mem e) →
+      ∃ e' ∈ s.edges, ∀ x, x ∈ s.mem e' ↔ x ∈ f) :
+    ∀ e ∈ (kSkeleton .sc s order).1.edges, ∀ f : List PyId, f ≠ [] → f.Nodup →
+      (∀ x ∈ f, x ∈ (kSkeleton .sc s order).1.mem e) →
+      ∃ e' ∈ (kSkeleton .sc s order).1.edges, ∀ x, x ∈ (kSkeleton .sc s order).1.mem e' ↔ x ∈ f := by
+  obtain ⟨_, _, k3, k4, _⟩ := k_skeleton_spec h ha order mo hmo hle
+  generalize (kSkeleton .sc s order).1 = r at *
+  intro e he f hf hfn hsub
+  have he' := he; rw [k3] at he'
+  obtain ⟨hes, hsz⟩ := List.mem_filter.1 he'
+  rw [k4 e he] at hsub
+  obtain ⟨e', he's, hiff⟩ := hclosed e hes f hf hfn hsub
+  have hlen : (s.mem e').length ≤ (s.mem e).length :=
+    List.Nodup.length_le_of_subset (h.setE e' he's) (fun x hx => hsub x ((hiff x).1 hx))
+  have he'r : e' ∈ r.edges := by
+    rw [k3, List.mem_filter]; refine ⟨he's, ?_⟩
+    simp only [decide_eq_true_eq] at hsz ⊢; omega
+  exact ⟨e', he'r, fun x => by rw [k4 e' he'r]; exact hiff x⟩
+
+/-! ### from_max_simplices -/
+
+/-- `from_max_simplices(SC)`: the node set is kept (in order); the edges are exactly the simplices that no
+    other simplex strictly contains, in the order of the complex, under the fresh IDs 0,1,2,…, without
+    attributes.  (`hsniff`: the first maximal simplex passes the format detection of `add_edges_from`,
+    which is the case whenever the labels are all strings or all non-strings, `sniffOK_uniform`.) -/
+theorem from_max_simplices_spec {s : HG} (h : WF s) (hne : ∀ e ∈ s.edges, s.mem e ≠ [])
+    (hsniff : ∀ e, (s.edges.filter (isMax s)).head? = some e → sniffOK (s.mem e)) :
+    (fromMaxSimplices .sc s).2 = .ok ∧
+    (fromMaxSimplices .sc s).1.nodes = s.nodes ∧
+    (fromMaxSimplices .sc s).1.edges =
+      (List.range (s.edges.filter (isMax s)).length).map (fun j => PyId.int (j : Nat)) ∧
+    (fromMaxSimplices .sc s).1.edges.map (fromMaxSimplices .sc s).1.mem = (s.edges.filter (isMax s)).map s.mem ∧
+    (∀ e ∈ (fromMaxSimplices .sc s).1.edges, (fromMaxSimplices .sc s).1.eattr e = []) ∧
+    (∀ n ∈ s.nodes, (fromMaxSimplices .sc s).1.nattr n = []) ∧
+    (fromMaxSimplices .sc s).1.frozen = false ∧ WF (fromMaxSimplices .sc s).1 := by
+  unfold fromMaxSimplices
+  simp only [ne_eq, not_true_eq_false, if_false, maximalIds_spec h hne]
+  generalize hmx : s.edges.filter (isMax s) = mx at *
+  have hmxs : ∀ e ∈ mx, e ∈ s.edges := fun e he => by rw [← hmx] at he; exact (List.mem_filter.1 he).1
+  obtain ⟨a1, a2⟩ := addBare_spec s.nodes HG.empty h.nodupN h.noNoneN
+  have i1 : Inv (addNodesFrom HG.empty (nodeBare s.nodes) []).1 := addNodesFrom_inv empty_inv _ _
+  generalize addNodesFrom HG.empty (nodeBare s.nodes) [] = r1 at *
+  rw [andThen_of_ok r1 _ a1]
+  have n1 : r1.1.nodes = s.nodes := by
+    rw [a2.nodes]; simp only [List.map_id_fun, id_eq, HG.empty]; exact foldl_ins_nil_of_nodup h.nodupN
+  have e1 : r1.1.edges = [] := by rw [a2.edges]; rfl
+  have u1 : r1.1.uid = 0 := by rw [a2.uid]; rfl
+  rw [addEdgesFrom_f1 _ _ (by
+    intro it hit
+    cases hmx' : mx with
+    | nil => rw [hmx'] at hit; cases hit
+    | cons e rest =>
+      rw [hmx'] at hit; simp only [List.map_cons, List.head?_cons, Option.some.injEq] at hit
+      rw [← hit]; exact hsniff e (by rw [hmx']; rfl))]
+  obtain ⟨c1, c2, c3, c4⟩ := bulk_auto .f1 (Or.inl rfl)
+    (mx.map (fun e => ({ members := s.mem e, idx := none, attr := [] } : EdgeItem))) r1.1 i1.2 (by
+      intro it hit; simp only [List.mem_map] at hit; obtain ⟨e, he, rfl⟩ := hit; exact wf_none_not_mem h (hmxs e he))
+  have i2 : Inv (bulk (addEdgesItem .f1 []) r1.1 (mx.map (fun e => ({ members := s.mem e, idx := none, attr := [] } : EdgeItem)))).1 :=
+    bulk_inv Inv _ (fun s a hs => addEdgesItem_inv .f1 [] s a hs) _ i1
+  generalize bulk (addEdgesItem .f1 []) r1.1 (mx.map (fun e => ({ members := s.mem e, idx := none, attr := [] } : EdgeItem))) = r2 at *
+  simp only [u1] at c2
+  generalize hI : autoItems 0 (mx.map (fun e => ({ members := s.mem e, idx := none, attr := [] } : EdgeItem))) = I at *
+  have ids : I.map (·.1) = (List.range mx.length).map (fun j => PyId.int (j : Nat)) := by
+    rw [← hI, autoItems_ids, List.range_eq_range']; simp
+  have e2 : r2.1.edges = I.map (·.1) := by rw [c2.edges, e1]; rfl
+  have n2 : r2.1.nodes = r1.1.nodes := c2.nodes_same (by
+    intro it hit n hn
+    rw [← hI] at hit
+    have : it.2.1 ∈ (autoItems 0 (mx.map (fun e => ({ members := s.mem e, idx := none, attr := [] } : EdgeItem)))).map (fun it => it.2.1) :=
+      List.mem_map_of_mem (f := fun (it : Item) => it.2.1) hit
+    rw [autoItems_map_snd (fun p => p.1)] at this
+    simp only [List.map_map, List.mem_map, Function.comp] at this
+    obtain ⟨e, he, heq⟩ := this
+    rw [← heq] at hn; simp only [mem_dedup] at hn
+    rw [n1]; exact (h.e2n e (hmxs e he) n hn).1)
+  refine ⟨c1, by rw [n2, n1], by rw [e2, ids], ?_, ?_, ?_, by rw [c2.frozen, a2.frozen]; rfl, i2.1⟩
+  · rw [e2, c2.map_mem, ← hI, autoItems_map_snd (fun p => dedup p.1), List.map_map]
+    apply List.map_congr_left; intro e he
+    simp only [Function.comp]
+    rw [dedup_of_nodup (nodup_dedup _), dedup_of_nodup (h.setE e (hmxs e he))]
+  · intro e he
+    rw [e2] at he
+    obtain ⟨it, hit, rfl⟩ := List.mem_map.1 he
+    rw [c2.eattr_new it hit]
+    have : it.2.2 ∈ I.map (fun it => it.2.2) := List.mem_map_of_mem (f := fun (it : Item) => it.2.2) hit
+    rw [← hI, autoItems_map_snd (fun p => p.2)] at this
+    simp only [List.map_map, List.mem_map, Function.comp] at this
+    obtain ⟨_, _, heq⟩ := this
+    rw [← heq]; rfl
+  · intro n hn
+    rw [c2.nattr_old n (by rw [n1]; exact hn)]
+    have := a2.nattr_new n hn
+    simp only [id_eq, HG.empty, List.not_mem_nil, if_false] at this
+    rw [this]; rfl
+
+/-- what "maximal" means: no other simplex of the complex strictly contains it -/
+theorem isMax_spec (s : HG) (e : PyId) :
+    isMax s e = true ↔ ∀ j ∈ s.edges, (∀ x ∈ s.mem e, x ∈ s.mem j) → ∀ y ∈ s.mem j, y ∈ s.mem e :=
+  isMax_iff s e
+
+/-- on anything but a `SimplicialComplex` the function raises the library's error -/
+theorem from_max_simplices_wrong_class (s : HG) : (fromMaxSimplices .hg s).2 = .err .lib := by
+  unfold fromMaxSimplices; simp
+
+/-! ### complement -/
+
+/-- the network `complement(H)` returns: the nodes of `H` (in order, no attributes) and one edge with a fresh
+    ID 0,1,2,… for every member list of `complementEdges H` (the order of the edges is Python set iteration
+    order and is not part of the claim; the model lists them in `itertools.combinations` order) -/
+theorem complement_network {s : HG} (h : WF s) (hne : s.nodes ≠ []) :
+    (complement s).2 = .ok ∧
+    (complement s).1.nodes = s.nodes ∧
+    (complement s).1.edges = (List.range (complementEdges s).length).map (fun j => PyId.int (j : Nat)) ∧
+    (complement s).1.edges.map (complement s).1.mem = complementEdges s ∧
+    (complement s).1.frozen = false ∧ WF (complement s).1 := by
+  unfold complement
+  simp only [hne, if_false]
+  have hsubl : ∀ c ∈ complementEdges s, c.Sublist s.nodes := by
+    intro c hc
+    unfold complementEdges at hc
+    exact ((powersetUpTo_mem _ _ _).1 (List.mem_filter.1 hc).1).1
+  obtain ⟨a1, a2⟩ := addBare_spec s.nodes HG.empty h.nodupN h.noNoneN
+  have i1 : Inv (addNodesFrom HG.empty (nodeBare s.nodes) []).1 := addNodesFrom_inv empty_inv _ _
+  generalize addNodesFrom HG.empty (nodeBare s.nodes) [] = r1 at *
+  rw [andThen_of_ok r1 _ a1]
+  have n1 : r1.1.nodes = s.nodes := by
+    rw [a2.nodes]; simp only [List.map_id_fun, id_eq, HG.empty]; exact foldl_ins_nil_of_nodup h.nodupN
+  have e1 : r1.1.edges = [] := by rw [a2.edges]; rfl
+  have u1 : r1.1.uid = 0 := by rw [a2.uid]; rfl
+  obtain ⟨c1, c2, _, _⟩ := bulk_auto_gen (fun u ms => addEdge u ms none [])
+    (fun ms => ({ members := ms, idx := none, attr := [] } : EdgeItem))
+    (fun u ms _ hms => addEdge_auto u ms hms) (complementEdges s) r1.1 i1.2 (by
+      intro c hc hn; exact h.noNoneN ((hsubl c hc).subset hn))
+  have i2 : Inv (bulk (fun u ms => addEdge u ms none []) r1.1 (complementEdges s)).1 :=
+    bulk_inv Inv _ (fun s a hs => addEdge_inv hs a none []) _ i1
+  generalize bulk (fun u ms => addEdge u ms none []) r1.1 (complementEdges s) = r2 at *
+  simp only [u1] at c2
+  generalize hI : autoItems 0 ((complementEdges s).map (fun ms => ({ members := ms, idx := none, attr := [] } : EdgeItem))) = I at *
+  have ids : I.map (·.1) = (List.range (complementEdges s).length).map (fun j => PyId.int (j : Nat)) := by
+    rw [← hI, autoItems_ids, List.range_eq_range']; simp
+  have e2 : r2.1.edges = I.map (·.1) := by rw [c2.edges, e1]; rfl
+  have n2 : r2.1.nodes = r1.1.nodes := c2.nodes_same (by
+    intro it hit n hn
+    rw [← hI] at hit
+    have : it.2.1 ∈ (autoItems 0 ((complementEdges s).map (fun ms => ({ members := ms, idx := none, attr := [] } : EdgeItem)))).map (fun it => it.2.1) :=
+      List.mem_map_of_mem (f := fun (it : Item) => it.2.1) hit
+    rw [autoItems_map_snd (fun p => p.1)] at this
+    simp only [List.map_map, List.mem_map, Function.comp] at this
+    obtain ⟨c, hc, heq⟩ := this
+    rw [← heq] at hn; simp only [mem_dedup] at hn
+    rw [n1]; exact (hsubl c hc).subset hn)
+  refine ⟨c1, by rw [n2, n1], by rw [e2, ids], ?_, by rw [c2.frozen, a2.frozen]; rfl, i2.1⟩
+  rw [e2, c2.map_mem, ← hI, autoItems_map_snd (fun p => dedup p.1), List.map_map]
+  conv => rhs; rw [← List.map_id (complementEdges s)]
+  apply List.map_congr_left; intro c hc
+  simp only [Function.comp, id_eq]
+  have hnd : c.Nodup := (hsubl c hc).nodup h.nodupN
+  rw [dedup_of_nodup (nodup_dedup _), dedup_of_nodup hnd]
+
+/-- the null network has the null network as its complement -/
+theorem complement_null {s : HG} (hn : s.nodes = []) : complement s = (HG.empty, .ok) := by
+  unfold complement; simp [hn]
+
+/-- the edges of the complement are exactly the absent node sets: every listed set is a non-empty set of
+    nodes of at most the maximum edge size of `H` (1 when `H` has no edge) that is the member set of no edge
+    of `H`; every such set is listed; and none is listed twice. -/
+theorem complement_spec {s : HG} (h : WF s) :
+    (∀ c ∈ complementEdges s, c.Sublist s.nodes ∧ 1 ≤ c.length ∧ c.length ≤ maxEdgeSize s ∧
+        ∀ e ∈ s.edges, ¬ ∀ x, x ∈ s.mem e ↔ x ∈ c) ∧
+    (∀ c : List PyId, c.Nodup → (∀ x ∈ c, x ∈ s.nodes) → 1 ≤ c.length → c.length ≤ maxEdgeSize s →
+        (∀ e ∈ s.edges, ¬ ∀ x, x ∈ s.mem e ↔ x ∈ c) → ∃ c' ∈ complementEdges s, ∀ x, x ∈ c' ↔ x ∈ c) ∧
+    (complementEdges s).Pairwise DiffSet := by
+  refine ⟨?_, ?_, ?_⟩
+  · intro c hc
+    unfold complementEdges at hc
+    obtain ⟨hc1, hc2⟩ := List.mem_filter.1 hc
+    obtain ⟨p1, p2, p3⟩ := (powersetUpTo_mem _ _ _).1 hc1
+    refine ⟨p1, p2, p3, ?_⟩
+    intro e he hsame
+    simp only [Bool.not_eq_eq_eq_not, Bool.not_true, List.any_eq_false] at hc2
+    exact hc2 e he ((sameSet_iff _ _).2 hsame)
+  · intro c hcn hcs h1 h2 habs
+    obtain ⟨c', s1, s2, s3⟩ := exists_sublist_sameSet s.nodes c h.nodupN hcn hcs
+    refine ⟨c', ?_, s2⟩
+    unfold complementEdges
+    rw [List.mem_filter]
+    refine ⟨(powersetUpTo_mem _ _ _).2 ⟨s1, by omega, by omega⟩, ?_⟩
+    simp only [Bool.not_eq_eq_eq_not, Bool.not_true, List.any_eq_false]
+    intro e he hsame
+    apply habs e he
+    intro x; rw [(sameSet_iff _ _).1 hsame x]; exact s2 x
+  · unfold complementEdges
+    exact List.Pairwise.filter _ (powersetUpTo_pairwise _ _ h.nodupN)
+
+/-- `max_edge_order(H) + 1`: the largest edge size (for a network with an edge) -/
+theorem maxEdgeSize_spec (s : HG) (hne : s.edges ≠ []) :
+    (∀ e ∈ s.edges, (s.mem e).length ≤ maxEdgeSize s) ∧ (maxEdgeSize s = 0 ∨ ∃ e ∈ s.edges, (s.mem e).length = maxEdgeSize s) := by
+  unfold maxEdgeSize
+  simp only [hne, if_false]
+  refine ⟨fun e he => foldl_max_ge _ 0 _ (List.mem_map.2 ⟨e, he, rfl⟩), ?_⟩
+  rcases foldl_max_mem (s.edges.map (fun e => (s.mem e).length)) 0 with h | h
+  · exact Or.inl h
+  · obtain ⟨e, he, heq⟩ := List.mem_map.1 h
+    exact Or.inr ⟨e, he, heq⟩
+
+/-! ### largest_connected_hypergraph(in_place=False) -/
+
+/-- `largest_connected_hypergraph(H)` for a network with at least one node: `c`, the component chosen, is
+    the first of maximal size in `connected_components(H)`; the result is the sub-network induced on `c`
+    (its nodes in the order of `H`, the edges lying inside `c`, members and attributes kept), not frozen. -/
+theorem lch_spec {s : HG} (h : WF s) (ha : AttrWF s) {c : List PyId} (hc : largestComponent s = some c) :
+    (∃ pre post, components s = pre ++ c :: post ∧ (∀ p ∈ pre, p.length < c.length) ∧
+        ∀ p ∈ post, p.length ≤ c.length) ∧
+    (lch s).2 = .ok ∧
+    (lch s).1.nodes = s.nodes.filter (· ∈ c) ∧
+    (lch s).1.edges = s.edges.filter (fun e => (s.mem e).all (· ∈ c)) ∧
+    (∀ e ∈ (lch s).1.edges, (lch s).1.mem e = s.mem e) ∧
+    (∀ n ∈ (lch s).1.nodes, (lch s).1.nattr n = s.nattr n) ∧
+    (∀ e ∈ (lch s).1.edges, (lch s).1.eattr e = s.eattr e) ∧
+    (lch s).1.net = s.net ∧ (lch s).1.frozen = false ∧ WF (lch s).1 := by
+  refine ⟨largestComponent_spec hc, ?_⟩
+  unfold lch largestOrEmpty
+  rw [hc]; simp only [Option.getD_some]
+  obtain ⟨v1, v2, v3, v4, v5, v6, v7, _, v9⟩ := subhypergraph_spec h ha (some c) none
+  rw [andThen_of_ok _ _ v1]
+  generalize (subhypergraph s (some c) none true).1 = v at *
+  have hav : AttrWF v := by
+    constructor
+    · intro n hn; rw [v5 n hn]; rw [v2] at hn; exact ha.nattr n (List.mem_filter.1 hn).1
+    · intro e he; rw [v6 e he]; rw [v3] at he; exact ha.eattr e (List.mem_filter.1 he).1
+    · rw [v7]; exact ha.net
+  obtain ⟨k1, k2, k3, _, k5⟩ := copy_fields v9 hav
+  generalize (copy v).1 = r at *
+  have hn : v.nodes = s.nodes.filter (· ∈ c) := by
+    rw [v2]; apply List.filter_congr; intro x hx
+    simp [selected, hx]
+  have he : v.edges = s.edges.filter (fun e => (s.mem e).all (· ∈ c)) := by
+    rw [v3]; apply List.filter_congr; intro e he
+    simp only [keptEdge, selected, he, decide_true, Bool.true_and]
+    rw [Bool.eq_iff_iff]
+    simp only [List.all_eq_true, decide_eq_true_eq, selected_iff, requested]
+    exact ⟨fun hh x hx => (hh x hx).2, fun hh x hx => ⟨(h.e2n e he x hx).1, hh x hx⟩⟩
+  refine ⟨k1, by rw [k2.nodes, hn], by rw [k2.edges, he], ?_, ?_, ?_, by rw [k2.net, v7], k3, k5⟩
+  · intro e hee; rw [k2.edges] at hee; rw [k2.mem e hee, v4 e hee]
+  · intro n hnn; rw [k2.nodes] at hnn; rw [k2.nattr n hnn, v5 n hnn]
+  · intro e hee; rw [k2.edges] at hee; rw [k2.eattr e hee, v6 e hee]
+
+/-! ### convert_labels_to_integers -/
+
+/-- `convert_labels_to_integers(H, label_attribute, in_place=True)` on an unfrozen network is an isomorphism
+    onto integer labels that records the old ones: with `φ = pos H.nodes`, `ψ = pos H.edges` (the position of
+    an ID in the node / edge order),
+    * the new node and edge IDs are exactly 0..n-1 and 0..m-1, in order, and are the images under `φ`, `ψ`;
+    * `φ` and `ψ` are injective (hence bijections onto the new IDs);
+    * incidence is preserved: the members of `ψ e` are the `φ`-images of the members of `e`;
+    * every attribute is carried along, except that `label_attribute` now holds the old ID;
+    * the network attributes are untouched and the result is well formed. -/
+theorem relabel_iso {s : HG} (hi : Inv s) (ha : AttrWF s) (hf : s.frozen = false) (labelAttr : String) :
+    (relabel s labelAttr).2 = .ok ∧
+    (relabel s labelAttr).1.nodes = (List.range s.nodes.length).map (fun j => PyId.int (j : Nat)) ∧
+    (relabel s labelAttr).1.edges = (List.range s.edges.length).map (fun j => PyId.int (j : Nat)) ∧
+    (relabel s labelAttr).1.nodes = s.nodes.map (pos s.nodes) ∧
+    (relabel s labelAttr).1.edges = s.edges.map (pos s.edges) ∧
+    (∀ x ∈ s.nodes, ∀ y ∈ s.nodes, pos s.nodes x = pos s.nodes y → x = y) ∧
+    (∀ x ∈ s.edges, ∀ y ∈ s.edges, pos s.edges x = pos s.edges y → x = y) ∧
+    (∀ e ∈ s.edges, (relabel s labelAttr).1.mem (pos s.edges e) = (s.mem e).map (pos s.nodes)) ∧
+    (∀ e ∈ s.edges, ∀ n ∈ s.nodes, pos s.nodes n ∈ (relabel s labelAttr).1.mem (pos s.edges e) ↔ n ∈ s.mem e) ∧
+    (∀ n ∈ s.nodes, (relabel s labelAttr).1.nattr (pos s.nodes n) = (s.nattr n).set labelAttr (relabel.idVal n)) ∧
+    (∀ e ∈ s.edges, (relabel s labelAttr).1.eattr (pos s.edges e) = (s.eattr e).set labelAttr (relabel.idVal e)) ∧
+    (relabel s labelAttr).1.net = s.net ∧ WF (relabel s labelAttr).1 := by
+  obtain ⟨r1, r2⟩ := relabel_fields hi hf labelAttr
+  have h := hi.1
+  generalize (relabel s labelAttr).1 = r at *
+  refine ⟨r1, by rw [r2.nodes, map_pos _ h.nodupN], by rw [r2.edges, map_pos _ h.nodupE], r2.nodes, r2.edges,
+    fun x hx y hy => pos_inj _ h.nodupN hx hy, fun x hx y hy => pos_inj _ h.nodupE hx hy, r2.mem, ?_, r2.nattr ha,
+    r2.eattr ha, r2.net, r2.inv.1⟩
+  intro e he n hn
+  rw [r2.mem e he, List.mem_map]
+  constructor
+  · rintro ⟨m, hm, heq⟩
+    have := pos_inj _ h.nodupN (h.e2n e he m hm).1 hn heq
+    rw [← this]; exact hm
+  · intro hm; exact ⟨n, hm, rfl⟩
+
+/-- the old label can be read back under `label_attribute`; every other attribute is unchanged -/
+theorem relabel_records_old_labels {s : HG} (hi : Inv s) (ha : AttrWF s) (hf : s.frozen = false) (labelAttr : String) :
+    (∀ n ∈ s.nodes, ((relabel s labelAttr).1.nattr (pos s.nodes n)).get? labelAttr = some (relabel.idVal n)) ∧
+    (∀ e ∈ s.edges, ((relabel s labelAttr).1.eattr (pos s.edges e)).get? labelAttr = some (relabel.idVal e)) ∧
+    (∀ n ∈ s.nodes, ∀ k, k ≠ labelAttr → ((relabel s labelAttr).1.nattr (pos s.nodes n)).get? k = (s.nattr n).get? k) ∧
+    (∀ e ∈ s.edges, ∀ k, k ≠ labelAttr → ((relabel s labelAttr).1.eattr (pos s.edges e)).get? k = (s.eattr e).get? k) := by
+  obtain ⟨_, r2⟩ := relabel_fields hi hf labelAttr
+  refine ⟨?_, ?_, ?_, ?_⟩
+  · intro n hn; rw [r2.nattr ha n hn]; exact get?_set_self _ _ _
+  · intro e he; rw [r2.eattr ha e he]; exact get?_set_self _ _ _
+  · intro n hn k hk; rw [r2.nattr ha n hn]; exact get?_set_other _ _ _ _ hk
+  · intro e he k hk; rw [r2.eattr ha e he]; exact get?_set_other _ _ _ _ hk
+
+/-- different IDs are recorded as different labels -/
+theorem idVal_injective (x y : PyId) (h : relabel.idVal x = relabel.idVal y)
+    (hx : ∀ l, x ≠ .tup l) (hy : ∀ l, y ≠ .tup l) : x = y := by
+  cases x with
+  | atom a => cases y with
+    | atom b => cases a <;> cases b <;> simp_all [relabel.idVal]
+    | tup l => exact absurd rfl (hy l)
+    | none => cases a <;> simp [relabel.idVal] at h
+  | tup l => exact absurd rfl (hx l)
+  | none => cases y with
+    | atom b => cases b <;> simp [relabel.idVal] at h
+    | tup l => exact absurd rfl (hy l)
+    | none => rfl
+
+/-- a frozen network is refused -/
+theorem relabel_frozen {s : HG} (hf : s.frozen = true) (labelAttr : String) :
+    relabel s labelAttr = (s, .err .lib) := by
+  unfold relabel; simp [hf]
+
+/-! ### non-vacuity: concrete networks satisfy the hypotheses and the functions evaluate as stated -/
+
+/-- nodes 1,2,3,"a" (1 carries an attribute, "a" is isolated), edges 0={1,2} (with an attribute), "x"={2,3}, 5={3} -/
+private def demo : HG :=
+  (addEdgesFrom (addNodesFrom HG.empty
+      [(.int 1, some [("c", .sc (.int 7))]), (.int 2, none), (.int 3, none), (.str "a", none)] []).1 .f4
+    [{ members := [.int 1, .int 2], idx := some (.int 0), attr := [("w", .sc (.int 1))] },
+     { members := [.int 2, .int 3], idx := some (.str "x"), attr := [] },
+     { members := [.int 3], idx := some (.int 5), attr := [] }] []).1
+
+/-- the complex generated by the triangle {1,2,3} (IDs 0..6) plus the isolated node 9 -/
+private def demoSC : HG :=
+  (addEdgesFrom (addNodesFrom HG.empty [(.int 1, none), (.int 2, none), (.int 3, none), (.int 9, none)] []).1 .f2
+    [{ members := [.int 1, .int 2, .int 3], idx := some (.int 0), attr := [] },
+     { members := [.int 1, .int 2], idx := some (.int 1), attr := [] },
+     { members := [.int 1, .int 3], idx := some (.int 2), attr := [] },
+     { members := [.int 2, .int 3], idx := some (.int 3), attr := [] },
+     { members := [.int 1], idx := some (.int 4), attr := [] },
+     { members := [.int 2], idx := some (.int 5), attr := [] },
+     { members := [.int 3], idx := some (.int 6), attr := [] }] []).1
+
+private instance (a : Attrs) : Decidable (AttrsOK a) := by unfold AttrsOK; exact inferInstance
+
+example : Inv demo := addEdgesFrom_inv (addNodesFrom_inv empty_inv _ _) _ _ _
+example : AttrWF demo := ⟨by decide, by decide, by decide⟩
+example : Aligned demo := ⟨by decide, by decide⟩
+example : demo.frozen = false := by decide
+example : Inv demoSC := addEdgesFrom_inv (addNodesFrom_inv empty_inv _ _) _ _ _
+example : ∀ e ∈ demoSC.edges, demoSC.mem e ≠ [] := by decide
+example : demo.edges = [.int 0, .str "x", .int 5] := by decide
+example : (subhypergraph demo (some [.int 1, .int 2, .str "a", .int 99]) none true).1.edges = [.int 0] := by decide
+example : (subhypergraph demo (some [.int 1, .int 2, .str "a", .int 99]) none false).1.nodes = [.int 1, .int 2] := by decide
+example : (dual demo).1.edges = [.int 1, .int 2, .int 3, .str "a"] := by decide
+example : (dual demo).1.mem (.int 2) = [.int 0, .str "x"] := by decide
+example : (dual (dual demo).1).1.mem (.str "x") = [.int 2, .int 3] := by decide
+example : (lshift demo demo).1.edges = [.int 0, .int 1, .int 2, .int 3, .int 4, .int 5] := by decide
+example : maxEdgeOrder demo = some 1 := by decide
+example : (cutToOrder .hg demo 0).1.edges = [.int 5] := by decide
+example : (cutToOrder .hg demo 2).2 = .err .lib := by decide
+example : (kSkeleton .sc demoSC 1).1.edges = [.int 1, .int 2, .int 3, .int 4, .int 5, .int 6] := by decide
+example : (fromMaxSimplices .sc demoSC).1.nodes = [.int 1, .int 2, .int 3, .int 9] := by decide
+example : (fromMaxSimplices .sc demoSC).1.edges.map (fromMaxSimplices .sc demoSC).1.mem = [[.int 1, .int 2, .int 3]] := by decide
+example : complementEdges demo = [[.int 1], [.int 2], [.str "a"], [.int 1, .int 3], [.int 1, .str "a"],
+    [.int 2, .str "a"], [.int 3, .str "a"]] := by decide
+example : largestComponent demo = some [.int 1, .int 2, .int 3] := by decide
+example : (lch demo).1.nodes = [.int 1, .int 2, .int 3] := by decide
+example : (relabel demo "label").1.mem (.int 1) = [.int 1, .int 2] := by decide
+example : ((cleanup' demo false false false true true).map (fun r => (r.2, r.1.nodes, r.1.edges))) =
+    some (.ok, [.int 0, .int 1, .int 2], [.int 0, .int 1]) := by decide
+/-- the repaired connected step leaves the null network alone (the unchanged code raises `ValueError` here) -/
+example : ((cleanup' HG.empty false false false true true).map (·.2)) = some .ok := by decide
+example : ((HG.cleanup HG.empty false false false true true).map (·.2)) = some (.err .valueError) := by decide
 end Xgi.C19
